@@ -94,7 +94,7 @@ def check_last_getters(res, n):
             dt = datetime.datetime(1970, 1, 1) + datetime.timedelta(seconds=S)
             sub = "%04d-%02d-%02dT%02d-%02d-%02d" % (dt.year, dt.month, dt.day, dt.hour, dt.minute, dt.second)
             wantf = os.path.join(chdir, sub, "rf@%d.%03d.h5" % (F // 1000, F % 1000))
-            if os.path.normpath(lf or "") != os.path.normpath(wantf) or os.path.normpath(ld or "") != os.path.normpath(os.path.join(chdir, sub)):
+            if os.path.abspath(lf or "x") != os.path.abspath(wantf) or os.path.abspath(ld or "x") != os.path.abspath(os.path.join(chdir, sub)):
                 res.violation("last-file-wrong", "get_last_file_written / get_last_dir_written do not name the file of the most recent sample (%s)" % phase,
                               hist, [wantf, os.path.join(chdir, sub)], [lf, ld])
         res.count("last_getters")
